@@ -107,7 +107,9 @@ def apply_op(w, op):
             log.append((tag, len(s), float(s.t[-1]), float(s.y[-1][0])))
         return cb
     cbs = [mk("A"), mk("B")]
-    obs = dict(op=list(op), rows0=len(a), log=log, raised=None, dt_set=None)
+    obs = dict(op=list(op), rows0=len(a), log=log, raised=None, dt_set=None, pending=getattr(w, "pending_dt", None))
+    if op[0] != "hopdt":
+        w.pending_dt = None
     b = driver.Budget(20000)
     tgt = (w.dtype(TF),) if w.cfg.get("against") else ()
     try:
@@ -133,6 +135,17 @@ def apply_op(w, op):
             a.rtol = a.rtol * w.dtype(0.5)
         elif k == "fresh":
             a.set_method(method_of(w.cfg["method"]), preserve_states=False)
+        elif k == "hopdt":
+            # a short hop (target nearer than one step) whose callbacks assign the step size, on its last recorded step too: the NEXT call starts with it
+            dsg = 1.0 if TF > T0 else -1.0
+            target = w.dtype(float(a.t[-1]) + dsg * op[1])
+            if (TF - float(target)) * dsg <= 0:
+                obs["disabled"] = True
+            else:
+                def setdt_always(s):
+                    s.dt = w.dtype(op[2])
+                a.integrate(target, callback=[cbs[0], setdt_always, cbs[1], b])
+                w.pending_dt = (len(a), op[2])
         elif k == "intdt":
             st = dict(n=0)
 
@@ -151,8 +164,8 @@ def apply_op(w, op):
 
 def ops_fn(cfg, hist):
     used = [o[0] for o in hist]
-    ops = [("int",), ("intT", 1.0), ("ev",), ("evterm",), ("fault", 7), ("fault", 30), ("reset",), ("intdt", 0.125), ("settol",), ("fresh",)]
-    ops = [o for o in ops if not (o[0] in ("evterm", "intdt", "ev", "settol", "fresh") and o[0] in used)]
+    ops = [("int",), ("intT", 1.0), ("ev",), ("evterm",), ("fault", 7), ("fault", 30), ("reset",), ("intdt", 0.125), ("settol",), ("fresh",), ("hopdt", 0.03125, 0.125)]
+    ops = [o for o in ops if not (o[0] in ("evterm", "intdt", "ev", "settol", "fresh", "hopdt") and o[0] in used)]
     if not hist:
         ops = [o for o in ops if o[0] not in ("settol", "fresh")]          # between runs: only after something has run
     if used.count("fault") >= 1:
@@ -248,6 +261,15 @@ def step(cfg, hist):
                 if lens != list(range(obs["rows0"] + 1, obs["rows1"] + 1)):
                     r.v("C20/callback-count/%s" % name, "callbacks are invoked exactly once per recorded step", case,
                         observed=dict(invocations=len(A), new_rows=new_rows, lens=lens[:12]), expected="one invocation per new row")
+        # ... also when the assignment was made on the last step of the PREVIOUS call (a short hop): the first step of this call uses it
+        if obs.get("pending") and obs["op"][0] in ("int", "intT", "ev", "fault") and lc.family(cfg["method"]) in ("fixed-explicit", "splitting") and obs["raised"] is None:
+            ln, val = obs["pending"]
+            if ln == obs["rows0"] and ln < len(T):
+                nxt = abs(T[ln] - T[ln - 1])
+                remaining = abs(T[-1] - T[ln - 1])
+                if nxt != val and not (remaining <= val):
+                    r.v("C20/callback-dt-next-call/%s" % name, "a step size assigned by a callback is the one used for the next step (here: the first step of the next call)", case,
+                        observed=dict(next_step=nxt, assigned=val), expected="equal")
         # a step size assigned by a callback is the one used for the next step (fixed-step explicit / splitting, lattice values)
         if obs["dt_set"] and lc.family(cfg["method"]) in ("fixed-explicit", "splitting") and obs["raised"] is None:
             ln, val = obs["dt_set"]
